@@ -7,7 +7,8 @@
 //    use the model (leg O): brute-force filter over the stored intervals (each overlapping interval exactly once, no
 //    other); after every mutating op a walker recomputes subtree_max of every node from scratch and re-checks the
 //    red-black tree (order by lower bound, stability, links, colouring, height).
-// Script:  cfg <poolsize> <full|hash> [every]      first line
+// Script:  cfg <poolsize> <full|hash> [every [type]]   first line; type = u64 (default) | i64 | f64: the endpoint type P the
+//                               tree is instantiated with (signed: negative endpoints; f64: doubles such as -94.75)
 //          i <lo> <hi> <id>     interval_tree::insert(node id with [lo, hi])   (lo > hi: FRG_ASSERT expected)
 //          r <id>               interval_tree::remove(node id)
 //          q <lb> <ub>          for_overlaps(fn, lb, ub)        prints "o <ids in callback order>"
@@ -27,22 +28,39 @@
 #include <string>
 #include <vector>
 #include <algorithm>
+#include <cinttypes>
 #include "vharness.hpp"
 #include <frg/interval_tree.hpp>
 
-struct Node {
-	uint64_t lo = 0, hi = 0;
-	uint64_t seq = 0;
-	int id = 0;
-	bool member = false;
-	frg::rbtree_hook hook;
-	frg::interval_hook<uint64_t> ih;
-};
-using IT = frg::interval_tree<Node, uint64_t, &Node::lo, &Node::hi, &Node::hook, &Node::ih>;
-using BT = IT::binary_tree;
 using CT = frg::_redblack::color_type;
 
-static std::string ids(void *p) { return p ? std::to_string(static_cast<Node *>(p)->id) : std::string("-"); }
+// ---- endpoint types.  interval_tree is a template in the endpoint type P; the harness instantiates it with an unsigned and a
+// signed integer type and with double (negative / mixed-sign / fractional endpoints).  parse/str: script token <-> value
+// (doubles printed with %.17g, which round-trips); from_int: the endpoint an enumeration index e in {0..u} stands for
+// (signed: e - 4, doubles: (e - 4) * 0.25 -- both mixed-sign over the universe 8; unsigned: e itself).
+template<class E> struct Codec;
+template<> struct Codec<uint64_t> {
+	static const char *name() { return "u64"; }
+	static uint64_t parse(const std::string &s) { return vh::u64(s); }
+	static std::string str(uint64_t v) { return std::to_string((unsigned long long)v); }
+	static bool valid(uint64_t) { return true; }
+	static uint64_t from_int(long long e) { return (uint64_t)e; }
+};
+template<> struct Codec<int64_t> {
+	static const char *name() { return "i64"; }
+	static int64_t parse(const std::string &s) { return (int64_t)strtoll(s.c_str(), nullptr, 10); }
+	static std::string str(int64_t v) { return std::to_string((long long)v); }
+	static bool valid(int64_t) { return true; }
+	static int64_t from_int(long long e) { return e - 4; }
+};
+template<> struct Codec<double> {
+	static const char *name() { return "f64"; }
+	static double parse(const std::string &s) { double d = strtod(s.c_str(), nullptr); return d == 0 ? 0.0 : d; }   // -0 -> +0
+	static std::string str(double v) { char b[40]; snprintf(b, sizeof b, "%.17g", v); return b; }
+	static bool valid(double d) { return d == d; }      // NaN is not ordered: outside the property, skipped
+	static double from_int(long long e) { return (double)(e - 4) * 0.25; }
+};
+
 static uint64_t fnv(const std::string &s) {
 	uint64_t h = 14695981039346656037ULL;
 	for(unsigned char c : s) { h ^= c; h *= 1099511628211ULL; }
@@ -59,245 +77,267 @@ static void emit(const std::string &s) {
 	} else { fputs(s.c_str(), stdout); putchar('\n'); }
 }
 
-static void dump(IT &it, Node *pool, int P, bool hashmode) {
-	std::string s = "t " + ids(it._rbtree.get_root()) + " " + ids(it._rbtree.first());
-	for(int i = 0; i < P; i++) {
-		auto &h = pool[i].hook;
-		s += " | " + std::to_string(i) + ":" + ids(h.parent) + "," + ids(h.left) + "," + ids(h.right) + ","
-			+ ids(h.predecessor) + "," + ids(h.successor) + ",";
-		if(!pool[i].member) s += "-,-";   // colour and subtree_max of a non-member are stale, not observable
-		else {
-			s += h.color == CT::red ? "R" : h.color == CT::black ? "B" : "?";
-			s += "," + std::to_string((unsigned long long)pool[i].ih.subtree_max);
-		}
-	}
-	if(hashmode) { char b[32]; snprintf(b, sizeof b, "h %016llx", (unsigned long long)fnv(s)); emit(b); }
-	else emit(s);
-}
-
-// ---- independent walker over the real nodes
-struct Walk {
-	int P; size_t steps = 0; bool broken = false; int height = 0;
-	std::vector<Node *> ino;
-	bool check_max;
-	// returns black height; *mx = maximum of hi over the subtree recomputed from scratch
-	int go(Node *nd, int depth, uint64_t *mx) {
-		if(broken) return 0;
-		if(++steps > 2 * (size_t)P + 16 || depth > 128) { vh::oracle("rb-shape", "left/right walk does not terminate (cycle through node %d)", nd->id); broken = true; return 0; }
-		height = std::max(height, depth);
-		if(!nd->member) vh::oracle("rb-member", "node %d reachable from the root but not contained", nd->id);
-		if(nd->hook.color != CT::red && nd->hook.color != CT::black) vh::oracle("rb-colour", "member %d has no colour", nd->id);
-		Node *l = BT::get_left(nd), *r = BT::get_right(nd);
-		if(l && BT::get_parent(l) != nd) vh::oracle("rb-parent", "left child %d of %d has parent %s", l->id, nd->id, ids(BT::get_parent(l)).c_str());
-		if(r && BT::get_parent(r) != nd) vh::oracle("rb-parent", "right child %d of %d has parent %s", r->id, nd->id, ids(BT::get_parent(r)).c_str());
-		if(l && l == r) { vh::oracle("rb-shape", "node %d has the same left and right child", nd->id); broken = true; return 0; }
-		if(nd->hook.color == CT::red && ((l && l->hook.color == CT::red) || (r && r->hook.color == CT::red)))
-			vh::oracle("rb-redred", "red node %d has a red child", nd->id);
-		uint64_t m = nd->hi, ml = 0, mr = 0;
-		int bl = 0, br = 0;
-		if(l) { bl = go(l, depth + 1, &ml); if(ml > m) m = ml; }
-		if(broken) return 0;
-		ino.push_back(nd);
-		if(r) { br = go(r, depth + 1, &mr); if(mr > m) m = mr; }
-		if(broken) return 0;
-		if(bl != br) vh::oracle("rb-blackheight", "node %d: black height left %d, right %d", nd->id, bl, br);
-		if(check_max && nd->ih.subtree_max != m)
-			vh::oracle("iv-max", "node %d [%llu,%llu]: subtree_max is %llu, maximum upper bound in its subtree is %llu", nd->id,
-				(unsigned long long)nd->lo, (unsigned long long)nd->hi, (unsigned long long)nd->ih.subtree_max, (unsigned long long)m);
-		*mx = m;
-		return bl + (nd->hook.color == CT::black ? 1 : 0);
-	}
-};
-
-static void check_tree(IT &it, Node *pool, int P, const std::vector<int> &ref, bool check_max) {
-	size_t n = ref.size();
-	Walk w; w.P = P; w.check_max = check_max;
-	Node *root = it._rbtree.get_root();
-	if(root) {
-		if(BT::get_parent(root)) vh::oracle("rb-parent", "root %d has parent %d", root->id, BT::get_parent(root)->id);
-		if(root->hook.color != CT::black) vh::oracle("rb-rootblack", "root %d is not black", root->id);
-		uint64_t m; w.go(root, 1, &m);
-	}
-	if(w.broken) return;
-	auto &ino = w.ino;
-	bool same = ino.size() == n;
-	for(size_t i = 0; same && i < n; i++) same = ino[i]->id == ref[i];
-	if(!same) {
-		std::string a, b;
-		for(auto *x : ino) a += " " + std::to_string(x->id);
-		for(int x : ref) b += " " + std::to_string(x);
-		vh::oracle("rb-inorder", "in-order walk over left/right is [%s ], reference is [%s ]", a.substr(0, 300).c_str(), b.substr(0, 300).c_str());
-	}
-	for(size_t i = 0; i + 1 < ino.size(); i++) {
-		if(ino[i + 1]->lo < ino[i]->lo) { vh::oracle("rb-order", "in-order walk: node %d (lower %llu) before node %d (lower %llu)", ino[i]->id, (unsigned long long)ino[i]->lo, ino[i + 1]->id, (unsigned long long)ino[i + 1]->lo); break; }
-		if(ino[i + 1]->lo == ino[i]->lo && ino[i + 1]->seq < ino[i]->seq) { vh::oracle("rb-stable", "equal lower bounds %llu: node %d (inserted later) before node %d", (unsigned long long)ino[i]->lo, ino[i]->id, ino[i + 1]->id); break; }
-	}
-	Node *f = it._rbtree.first();
-	if(f != (ino.empty() ? nullptr : ino[0])) vh::oracle("rb-first", "first() is %s, leftmost element is %s", ids(f).c_str(), ino.empty() ? "-" : std::to_string(ino[0]->id).c_str());
-	{
-		size_t i = 0; Node *cur = f; bool ok = true;
-		if(cur && BT::predecessor(cur)) vh::oracle("rb-predsucc", "first() %d has predecessor %d", cur->id, BT::predecessor(cur)->id);
-		while(cur) {
-			if(i >= n || cur->id != ref[i]) { ok = false; break; }
-			Node *nx = BT::successor(cur);
-			if(nx && BT::predecessor(nx) != cur) vh::oracle("rb-predsucc", "successor(%d) = %d but predecessor(%d) = %s", cur->id, nx->id, nx->id, ids(BT::predecessor(nx)).c_str());
-			cur = nx; i++;
-		}
-		if(!ok || i != n) vh::oracle("rb-succwalk", "successor walk from first() leaves the reference sequence at position %zu of %zu", i, n);
-	}
-	{
-		int lg = 0; while((2ULL << lg) <= (unsigned long long)n + 1) lg++;
-		if(w.height > 2 * lg) vh::oracle("rb-height", "height %d > 2*log2(%zu+1) = %d", w.height, n, 2 * lg);
-	}
-	for(int i = 0; i < P; i++) if(!pool[i].member) {
-		auto &h = pool[i].hook;
-		if(h.parent || h.left || h.right || h.predecessor || h.successor)
-			vh::oracle("rb-reset", "node %d is not contained but its hook is not reset", i);
-	}
-}
-
-// children first
-static void reaggregate(IT &it, Node *nd, int depth) {
-	if(!nd || depth > 200) return;
-	reaggregate(it, BT::get_left(nd), depth + 1);
-	reaggregate(it, BT::get_right(nd), depth + 1);
-	it._rbtree.aggregate_node(nd);
-}
-
-static void query(IT &it, Node *pool, int P, uint64_t lb, uint64_t ub, bool one_arg, bool dirty) {
-	std::vector<int> seen;
-	size_t calls = 0;
-	bool nonmember = false;
-	auto fn = [&](Node *nd) {
-		if(++calls > 4 * (size_t)P + 16) throw vh::AssertStop{"callback storm"};
-		if(!nd || nd < pool || nd >= pool + P) { nonmember = true; return; }
-		seen.push_back(nd->id);
+template<class E> struct Har {
+	using C = Codec<E>;
+	static std::string S(E v) { return C::str(v); }
+	struct Node {
+		E lo{}, hi{};
+		uint64_t seq = 0;
+		int id = 0;
+		bool member = false;
+		frg::rbtree_hook hook;
+		frg::interval_hook<E> ih;
 	};
-	if(one_arg) it.for_overlaps(fn, lb);
-	else it.for_overlaps(fn, lb, ub);
-	std::string s = "o";
-	for(int i : seen) s += " " + std::to_string(i);
-	emit(s);
-	if(nonmember) vh::oracle("iv-spurious", "callback invoked with a pointer that is not a pool node");
-	if(dirty || lb > ub) return;      // outside the property's quantifier (see NOTES.md); compared with the model only
-	std::vector<int> cnt(P, 0);
-	for(int i : seen) cnt[i]++;
-	for(int i = 0; i < P; i++) {
-		bool want = pool[i].member && pool[i].lo <= ub && lb <= pool[i].hi;
-		if(want && cnt[i] == 0) vh::oracle("iv-missed", "query [%llu,%llu]: stored interval %d = [%llu,%llu] overlaps but the callback was not invoked for it",
-			(unsigned long long)lb, (unsigned long long)ub, i, (unsigned long long)pool[i].lo, (unsigned long long)pool[i].hi);
-		if(!want && cnt[i] > 0) vh::oracle("iv-spurious", "query [%llu,%llu]: callback invoked for node %d = [%llu,%llu] (%s)",
-			(unsigned long long)lb, (unsigned long long)ub, i, (unsigned long long)pool[i].lo, (unsigned long long)pool[i].hi,
-			pool[i].member ? "stored, does not overlap" : "not stored");
-		if(want && cnt[i] > 1) vh::oracle("iv-twice", "query [%llu,%llu]: callback invoked %d times for interval %d = [%llu,%llu]",
-			(unsigned long long)lb, (unsigned long long)ub, cnt[i], i, (unsigned long long)pool[i].lo, (unsigned long long)pool[i].hi);
-	}
-}
+	using IT = frg::interval_tree<Node, E, &Node::lo, &Node::hi, &Node::hook, &Node::ih>;
+	using BT = typename IT::binary_tree;
 
-static void run_tree(const vh::Lines &ls, int P, bool hashmode, int every) {
-	std::unique_ptr<Node[]> pool(new Node[P]);
-	for(int i = 0; i < P; i++) pool[i].id = i;
-	std::vector<int> ref;
-	uint64_t seq = 0;
-	bool dirty = false;
-	IT it;
-	for(size_t li = 1; li < ls.size(); li++) {
-		auto t = vh::split(ls[li]);
-		if(t.empty()) continue;
-		const std::string &o = t[0];
-		if(o == "i" && t.size() == 4) {
-			uint64_t lo = vh::u64(t[1]), hi = vh::u64(t[2]); int id = atoi(t[3].c_str());
-			if(dirty || id < 0 || id >= P || pool[id].member) { emit("skip"); continue; }
-			Node &nd = pool[id];
-			nd.lo = lo; nd.hi = hi; nd.seq = ++seq;
-			if(lo > hi) {
-				// documented precondition: FRG_ASSERT(lower <= upper) must stop the call before the tree is touched
-				try { it.insert(&nd); } catch(vh::AssertStop &) { throw; }
-				vh::oracle("iv-noassert", "insert of [%llu,%llu] (lower > upper) did not stop in FRG_ASSERT", (unsigned long long)lo, (unsigned long long)hi);
-				emit("noassert");
-				return;
+
+	static std::string ids(void *p) { return p ? std::to_string(static_cast<Node *>(p)->id) : std::string("-"); }
+
+	static void dump(IT &it, Node *pool, int P, bool hashmode) {
+		std::string s = "t " + ids(it._rbtree.get_root()) + " " + ids(it._rbtree.first());
+		for(int i = 0; i < P; i++) {
+			auto &h = pool[i].hook;
+			s += " | " + std::to_string(i) + ":" + ids(h.parent) + "," + ids(h.left) + "," + ids(h.right) + ","
+				+ ids(h.predecessor) + "," + ids(h.successor) + ",";
+			if(!pool[i].member) s += "-,-";   // colour and subtree_max of a non-member are stale, not observable
+			else {
+				s += h.color == CT::red ? "R" : h.color == CT::black ? "B" : "?";
+				s += "," + S(pool[i].ih.subtree_max);
 			}
-			nd.member = true;
-			try { it.insert(&nd); }
-			catch(vh::AssertStop &a) { vh::oracle("iv-assert", "FRG_ASSERT fired on a valid insert: %s", a.where.c_str()); throw; }
-			size_t pos = 0;
-			while(pos < ref.size() && !(lo < pool[ref[pos]].lo)) pos++;
-			ref.insert(ref.begin() + pos, id);
-		} else if(o == "r" && t.size() == 2) {
-			int id = atoi(t[1].c_str());
-			if(dirty || id < 0 || id >= P || !pool[id].member) { emit("skip"); continue; }
-			try { it.remove(&pool[id]); }
-			catch(vh::AssertStop &a) { vh::oracle("iv-assert", "FRG_ASSERT fired on a valid remove: %s", a.where.c_str()); throw; }
-			pool[id].member = false;
-			ref.erase(std::find(ref.begin(), ref.end(), id));
-		} else if((o == "q" && t.size() == 3) || (o == "p" && t.size() == 2)) {
-			uint64_t lb = vh::u64(t[1]), ub = o == "q" ? vh::u64(t[2]) : lb;
-			try { query(it, pool.get(), P, lb, ub, o == "p", dirty); }
-			catch(vh::AssertStop &a) { vh::oracle("iv-assert", "FRG_ASSERT fired in for_overlaps: %s", a.where.c_str()); throw; }
-			if(vh::g_oracle_count > 0) { emit("stopped"); return; }
-			continue;
-		} else if(o == "w" && t.size() == 3) {
-			int id = atoi(t[1].c_str()); uint64_t hi = vh::u64(t[2]);
-			if(id < 0 || id >= P || !pool[id].member || hi < pool[id].lo) { emit("skip"); continue; }
-			pool[id].hi = hi; dirty = true;
-		} else if(o == "a" && t.size() == 2) {
-			int id = atoi(t[1].c_str());
-			if(id < 0 || id >= P || !pool[id].member) { emit("skip"); continue; }
-			it._rbtree.aggregate_path(&pool[id]);
-		} else if(o == "A" && t.size() == 1) {
-			reaggregate(it, it._rbtree.get_root(), 0); dirty = false;
-		} else { emit("skip"); continue; }
-		if(every <= 1 || li % (size_t)every == 0 || li + 1 == ls.size()) {
-			dump(it, pool.get(), P, hashmode);
-			check_tree(it, pool.get(), P, ref, !dirty);
-			if(vh::g_oracle_count > 0) { emit("stopped"); return; }
+		}
+		if(hashmode) { char b[32]; snprintf(b, sizeof b, "h %016" PRIx64, fnv(s)); emit(b); }
+		else emit(s);
+	}
+
+	// ---- independent walker over the real nodes
+	struct Walk {
+		int P; size_t steps = 0; bool broken = false; int height = 0;
+		std::vector<Node *> ino;
+		bool check_max;
+		// returns black height; *mx = maximum of hi over the subtree recomputed from scratch
+		int go(Node *nd, int depth, E *mx) {
+			if(broken) return 0;
+			if(++steps > 2 * (size_t)P + 16 || depth > 128) { vh::oracle("rb-shape", "left/right walk does not terminate (cycle through node %d)", nd->id); broken = true; return 0; }
+			height = std::max(height, depth);
+			if(!nd->member) vh::oracle("rb-member", "node %d reachable from the root but not contained", nd->id);
+			if(nd->hook.color != CT::red && nd->hook.color != CT::black) vh::oracle("rb-colour", "member %d has no colour", nd->id);
+			Node *l = BT::get_left(nd), *r = BT::get_right(nd);
+			if(l && BT::get_parent(l) != nd) vh::oracle("rb-parent", "left child %d of %d has parent %s", l->id, nd->id, ids(BT::get_parent(l)).c_str());
+			if(r && BT::get_parent(r) != nd) vh::oracle("rb-parent", "right child %d of %d has parent %s", r->id, nd->id, ids(BT::get_parent(r)).c_str());
+			if(l && l == r) { vh::oracle("rb-shape", "node %d has the same left and right child", nd->id); broken = true; return 0; }
+			if(nd->hook.color == CT::red && ((l && l->hook.color == CT::red) || (r && r->hook.color == CT::red)))
+				vh::oracle("rb-redred", "red node %d has a red child", nd->id);
+			E m = nd->hi, ml{}, mr{};
+			int bl = 0, br = 0;
+			if(l) { bl = go(l, depth + 1, &ml); if(ml > m) m = ml; }
+			if(broken) return 0;
+			ino.push_back(nd);
+			if(r) { br = go(r, depth + 1, &mr); if(mr > m) m = mr; }
+			if(broken) return 0;
+			if(bl != br) vh::oracle("rb-blackheight", "node %d: black height left %d, right %d", nd->id, bl, br);
+			if(check_max && nd->ih.subtree_max != m)
+				vh::oracle("iv-max", "node %d [%s,%s]: subtree_max is %s, maximum upper bound in its subtree is %s", nd->id,
+					S(nd->lo).c_str(), S(nd->hi).c_str(), S(nd->ih.subtree_max).c_str(), S(m).c_str());
+			*mx = m;
+			return bl + (nd->hook.color == CT::black ? 1 : 0);
+		}
+	};
+
+	static void check_tree(IT &it, Node *pool, int P, const std::vector<int> &ref, bool check_max) {
+		size_t n = ref.size();
+		Walk w; w.P = P; w.check_max = check_max;
+		Node *root = it._rbtree.get_root();
+		if(root) {
+			if(BT::get_parent(root)) vh::oracle("rb-parent", "root %d has parent %d", root->id, BT::get_parent(root)->id);
+			if(root->hook.color != CT::black) vh::oracle("rb-rootblack", "root %d is not black", root->id);
+			E m{}; w.go(root, 1, &m);
+		}
+		if(w.broken) return;
+		auto &ino = w.ino;
+		bool same = ino.size() == n;
+		for(size_t i = 0; same && i < n; i++) same = ino[i]->id == ref[i];
+		if(!same) {
+			std::string a, b;
+			for(auto *x : ino) a += " " + std::to_string(x->id);
+			for(int x : ref) b += " " + std::to_string(x);
+			vh::oracle("rb-inorder", "in-order walk over left/right is [%s ], reference is [%s ]", a.substr(0, 300).c_str(), b.substr(0, 300).c_str());
+		}
+		for(size_t i = 0; i + 1 < ino.size(); i++) {
+			if(ino[i + 1]->lo < ino[i]->lo) { vh::oracle("rb-order", "in-order walk: node %d (lower %s) before node %d (lower %s)", ino[i]->id, S(ino[i]->lo).c_str(), ino[i + 1]->id, S(ino[i + 1]->lo).c_str()); break; }
+			if(ino[i + 1]->lo == ino[i]->lo && ino[i + 1]->seq < ino[i]->seq) { vh::oracle("rb-stable", "equal lower bounds %s: node %d (inserted later) before node %d", S(ino[i]->lo).c_str(), ino[i]->id, ino[i + 1]->id); break; }
+		}
+		Node *f = it._rbtree.first();
+		if(f != (ino.empty() ? nullptr : ino[0])) vh::oracle("rb-first", "first() is %s, leftmost element is %s", ids(f).c_str(), ino.empty() ? "-" : std::to_string(ino[0]->id).c_str());
+		{
+			size_t i = 0; Node *cur = f; bool ok = true;
+			if(cur && BT::predecessor(cur)) vh::oracle("rb-predsucc", "first() %d has predecessor %d", cur->id, BT::predecessor(cur)->id);
+			while(cur) {
+				if(i >= n || cur->id != ref[i]) { ok = false; break; }
+				Node *nx = BT::successor(cur);
+				if(nx && BT::predecessor(nx) != cur) vh::oracle("rb-predsucc", "successor(%d) = %d but predecessor(%d) = %s", cur->id, nx->id, nx->id, ids(BT::predecessor(nx)).c_str());
+				cur = nx; i++;
+			}
+			if(!ok || i != n) vh::oracle("rb-succwalk", "successor walk from first() leaves the reference sequence at position %zu of %zu", i, n);
+		}
+		{
+			int lg = 0; while((2ULL << lg) <= (uint64_t)n + 1) lg++;
+			if(w.height > 2 * lg) vh::oracle("rb-height", "height %d > 2*log2(%zu+1) = %d", w.height, n, 2 * lg);
+		}
+		for(int i = 0; i < P; i++) if(!pool[i].member) {
+			auto &h = pool[i].hook;
+			if(h.parent || h.left || h.right || h.predecessor || h.successor)
+				vh::oracle("rb-reset", "node %d is not contained but its hook is not reset", i);
 		}
 	}
-}
 
-// ---- self-enumeration (thorough tier): cfg <n> enum <u> <shard> <nshards>
-// every insertion sequence of n intervals over the endpoint universe {0..u-1} (script number k, k = shard mod nshards),
-// each followed by ALL queries lb <= ub over {0..u} and all point queries, then one removal and all queries again --
-// the same script as gen.enum_script(n, u, k).  All canonical lines go into a digest ("d <scripts> <digest>" every 1024
-// scripts, "D ..." at the end); the oracle runs on every script; at the first oracle failure "F <k>" is printed and the
-// enumeration stops.
-static vh::Lines enum_script(int n, int u, unsigned long long k) {
-	std::vector<std::pair<int,int>> ivs;
-	for(int lo = 0; lo < u; lo++) for(int hi = lo; hi < u; hi++) ivs.push_back({lo, hi});
-	vh::Lines ls;
-	ls.push_back("cfg " + std::to_string(n) + " full 1");
-	std::vector<std::pair<int,int>> seq;
-	unsigned long long x = k;
-	for(int j = 0; j < n; j++) { seq.push_back(ivs[x % ivs.size()]); x /= ivs.size(); }
-	for(int j = 0; j < n; j++) ls.push_back("i " + std::to_string(seq[j].first) + " " + std::to_string(seq[j].second) + " " + std::to_string(j));
-	vh::Lines qs;
-	for(int lb = 0; lb <= u; lb++) for(int ub = lb; ub <= u; ub++) qs.push_back("q " + std::to_string(lb) + " " + std::to_string(ub));
-	for(int p = 0; p <= u; p++) qs.push_back("p " + std::to_string(p));
-	ls.insert(ls.end(), qs.begin(), qs.end());
-	if(n >= 2) {
-		int mx = 0;
-		for(int j = 1; j < n; j++) if(seq[j].second > seq[mx].second) mx = j;
-		int victim = k % 2 == 0 ? mx : (int)((k / 2) % n);
-		ls.push_back("r " + std::to_string(victim));
+	// children first
+	static void reaggregate(IT &it, Node *nd, int depth) {
+		if(!nd || depth > 200) return;
+		reaggregate(it, BT::get_left(nd), depth + 1);
+		reaggregate(it, BT::get_right(nd), depth + 1);
+		it._rbtree.aggregate_node(nd);
+	}
+
+	static void query(IT &it, Node *pool, int P, E lb, E ub, bool one_arg, bool dirty) {
+		std::vector<int> seen;
+		size_t calls = 0;
+		bool nonmember = false;
+		auto fn = [&](Node *nd) {
+			if(++calls > 4 * (size_t)P + 16) throw vh::AssertStop{"callback storm"};
+			if(!nd || nd < pool || nd >= pool + P) { nonmember = true; return; }
+			seen.push_back(nd->id);
+		};
+		if(one_arg) it.for_overlaps(fn, lb);
+		else it.for_overlaps(fn, lb, ub);
+		std::string s = "o";
+		for(int i : seen) s += " " + std::to_string(i);
+		emit(s);
+		if(nonmember) vh::oracle("iv-spurious", "callback invoked with a pointer that is not a pool node");
+		if(dirty || lb > ub) return;      // outside the property's quantifier (see NOTES.md); compared with the model only
+		std::vector<int> cnt(P, 0);
+		for(int i : seen) cnt[i]++;
+		for(int i = 0; i < P; i++) {
+			bool want = pool[i].member && pool[i].lo <= ub && lb <= pool[i].hi;
+			if(want && cnt[i] == 0) vh::oracle("iv-missed", "query [%s,%s]: stored interval %d = [%s,%s] overlaps but the callback was not invoked for it",
+				S(lb).c_str(), S(ub).c_str(), i, S(pool[i].lo).c_str(), S(pool[i].hi).c_str());
+			if(!want && cnt[i] > 0) vh::oracle("iv-spurious", "query [%s,%s]: callback invoked for node %d = [%s,%s] (%s)",
+				S(lb).c_str(), S(ub).c_str(), i, S(pool[i].lo).c_str(), S(pool[i].hi).c_str(),
+				pool[i].member ? "stored, does not overlap" : "not stored");
+			if(want && cnt[i] > 1) vh::oracle("iv-twice", "query [%s,%s]: callback invoked %d times for interval %d = [%s,%s]",
+				S(lb).c_str(), S(ub).c_str(), cnt[i], i, S(pool[i].lo).c_str(), S(pool[i].hi).c_str());
+		}
+	}
+
+	static void run_tree(const vh::Lines &ls, int P, bool hashmode, int every) {
+		std::unique_ptr<Node[]> pool(new Node[P]);
+		for(int i = 0; i < P; i++) pool[i].id = i;
+		std::vector<int> ref;
+		uint64_t seq = 0;
+		bool dirty = false;
+		IT it;
+		for(size_t li = 1; li < ls.size(); li++) {
+			auto t = vh::split(ls[li]);
+			if(t.empty()) continue;
+			const std::string &o = t[0];
+			if(o == "i" && t.size() == 4) {
+				E lo = C::parse(t[1]), hi = C::parse(t[2]); int id = atoi(t[3].c_str());
+				if(!C::valid(lo) || !C::valid(hi)) { emit("skip"); continue; }
+				if(dirty || id < 0 || id >= P || pool[id].member) { emit("skip"); continue; }
+				Node &nd = pool[id];
+				nd.lo = lo; nd.hi = hi; nd.seq = ++seq;
+				if(lo > hi) {
+					// documented precondition: FRG_ASSERT(lower <= upper) must stop the call before the tree is touched
+					try { it.insert(&nd); } catch(vh::AssertStop &) { throw; }
+					vh::oracle("iv-noassert", "insert of [%s,%s] (lower > upper) did not stop in FRG_ASSERT", S(lo).c_str(), S(hi).c_str());
+					emit("noassert");
+					return;
+				}
+				nd.member = true;
+				try { it.insert(&nd); }
+				catch(vh::AssertStop &a) { vh::oracle("iv-assert", "FRG_ASSERT fired on a valid insert: %s", a.where.c_str()); throw; }
+				size_t pos = 0;
+				while(pos < ref.size() && !(lo < pool[ref[pos]].lo)) pos++;
+				ref.insert(ref.begin() + pos, id);
+			} else if(o == "r" && t.size() == 2) {
+				int id = atoi(t[1].c_str());
+				if(dirty || id < 0 || id >= P || !pool[id].member) { emit("skip"); continue; }
+				try { it.remove(&pool[id]); }
+				catch(vh::AssertStop &a) { vh::oracle("iv-assert", "FRG_ASSERT fired on a valid remove: %s", a.where.c_str()); throw; }
+				pool[id].member = false;
+				ref.erase(std::find(ref.begin(), ref.end(), id));
+			} else if((o == "q" && t.size() == 3) || (o == "p" && t.size() == 2)) {
+				E lb = C::parse(t[1]), ub = o == "q" ? C::parse(t[2]) : lb;
+				if(!C::valid(lb) || !C::valid(ub)) { emit("skip"); continue; }
+				try { query(it, pool.get(), P, lb, ub, o == "p", dirty); }
+				catch(vh::AssertStop &a) { vh::oracle("iv-assert", "FRG_ASSERT fired in for_overlaps: %s", a.where.c_str()); throw; }
+				if(vh::g_oracle_count > 0) { emit("stopped"); return; }
+				continue;
+			} else if(o == "w" && t.size() == 3) {
+				int id = atoi(t[1].c_str()); E hi = C::parse(t[2]);
+				if(!C::valid(hi)) { emit("skip"); continue; }
+				if(id < 0 || id >= P || !pool[id].member || hi < pool[id].lo) { emit("skip"); continue; }
+				pool[id].hi = hi; dirty = true;
+			} else if(o == "a" && t.size() == 2) {
+				int id = atoi(t[1].c_str());
+				if(id < 0 || id >= P || !pool[id].member) { emit("skip"); continue; }
+				it._rbtree.aggregate_path(&pool[id]);
+			} else if(o == "A" && t.size() == 1) {
+				reaggregate(it, it._rbtree.get_root(), 0); dirty = false;
+			} else { emit("skip"); continue; }
+			if(every <= 1 || li % (size_t)every == 0 || li + 1 == ls.size()) {
+				dump(it, pool.get(), P, hashmode);
+				check_tree(it, pool.get(), P, ref, !dirty);
+				if(vh::g_oracle_count > 0) { emit("stopped"); return; }
+			}
+		}
+	}
+
+	// ---- self-enumeration (thorough tier): cfg <n> enum <u> <shard> <nshards>
+	// every insertion sequence of n intervals over the endpoint universe {0..u-1} (script number k, k = shard mod nshards),
+	// each followed by ALL queries lb <= ub over {0..u} and all point queries, then one removal and all queries again --
+	// the same script as gen.enum_script(n, u, k).  All canonical lines go into a digest ("d <scripts> <digest>" every 1024
+	// scripts, "D ..." at the end); the oracle runs on every script; at the first oracle failure "F <k>" is printed and the
+	// enumeration stops.
+	static vh::Lines enum_script(int n, int u, unsigned long long k) {
+		std::vector<std::pair<int,int>> ivs;
+		for(int lo = 0; lo < u; lo++) for(int hi = lo; hi < u; hi++) ivs.push_back({lo, hi});
+		vh::Lines ls;
+		ls.push_back("cfg " + std::to_string(n) + " full 1 " + C::name());
+		std::vector<std::pair<int,int>> seq;
+		unsigned long long x = k;
+		for(int j = 0; j < n; j++) { seq.push_back(ivs[x % ivs.size()]); x /= ivs.size(); }
+		for(int j = 0; j < n; j++) ls.push_back("i " + S(C::from_int(seq[j].first)) + " " + S(C::from_int(seq[j].second)) + " " + std::to_string(j));
+		vh::Lines qs;
+		for(int lb = 0; lb <= u; lb++) for(int ub = lb; ub <= u; ub++) qs.push_back("q " + S(C::from_int(lb)) + " " + S(C::from_int(ub)));
+		for(int p = 0; p <= u; p++) qs.push_back("p " + S(C::from_int(p)));
 		ls.insert(ls.end(), qs.begin(), qs.end());
+		if(n >= 2) {
+			int mx = 0;
+			for(int j = 1; j < n; j++) if(seq[j].second > seq[mx].second) mx = j;
+			int victim = k % 2 == 0 ? mx : (int)((k / 2) % n);
+			ls.push_back("r " + std::to_string(victim));
+			ls.insert(ls.end(), qs.begin(), qs.end());
+		}
+		return ls;
 	}
-	return ls;
-}
 
-static void run_enum(int n, int u, unsigned long long shard, unsigned long long nshards) {
-	unsigned long long niv = (unsigned long long)u * (u + 1) / 2, total = 1;
-	for(int j = 0; j < n; j++) total *= niv;
-	unsigned long long count = 0;
-	g_fold = true; g_digest = 14695981039346656037ULL;
-	for(unsigned long long k = shard; k < total; k += nshards) {
-		run_tree(enum_script(n, u, k), n, false, 1);
-		count++;
-		if(vh::g_oracle_count > 0) { g_fold = false; printf("F %llu\n", k); return; }
-		if(count % 1024 == 0) printf("d %llu %016llx\n", count, (unsigned long long)g_digest);
+	static void run_enum(int n, int u, unsigned long long shard, unsigned long long nshards) {
+		unsigned long long niv = (unsigned long long)u * (u + 1) / 2, total = 1;
+		for(int j = 0; j < n; j++) total *= niv;
+		unsigned long long count = 0;
+		g_fold = true; g_digest = 14695981039346656037ULL;
+		for(unsigned long long k = shard; k < total; k += nshards) {
+			run_tree(enum_script(n, u, k), n, false, 1);
+			count++;
+			if(vh::g_oracle_count > 0) { g_fold = false; printf("F %llu\n", k); return; }
+			if(count % 1024 == 0) printf("d %llu %016llx\n", count, (unsigned long long)g_digest);
+		}
+		g_fold = false;
+		printf("D %llu %016llx\n", count, (unsigned long long)g_digest);
 	}
-	g_fold = false;
-	printf("D %llu %016llx\n", count, (unsigned long long)g_digest);
-}
+
+};
 
 static void on_alarm(int) {
 	static const char msg[] = "[timeout] operation on the tree did not terminate within the per-case limit\n";
@@ -312,19 +352,26 @@ static void body(const vh::Lines &ls) {
 	tv.it_value.tv_sec = ls.size() > 500 ? 150 : 3;
 	setitimer(ITIMER_PROF, &tv, nullptr);
 	auto t = vh::split(ls[0]);
-	if(t.size() == 6 && t[0] == "cfg" && t[2] == "enum") {
+	if((t.size() == 6 || t.size() == 7) && t[0] == "cfg" && t[2] == "enum") {
+		std::string ty = t.size() == 7 ? t[6] : "u64";
 		int n = atoi(t[1].c_str()), u = atoi(t[3].c_str());
 		long long sh = atoll(t[4].c_str()), nsh = atoll(t[5].c_str());
 		if(n < 1 || n > 6 || u < 1 || u > 8 || nsh < 1 || sh < 0 || sh >= nsh) { printf("badcfg\n"); return; }
 		tv.it_value.tv_sec = 3000; setitimer(ITIMER_PROF, &tv, nullptr);
-		run_enum(n, u, sh, nsh);
+		if(ty == "f64") Har<double>::run_enum(n, u, sh, nsh);
+		else if(ty == "i64") Har<int64_t>::run_enum(n, u, sh, nsh);
+		else Har<uint64_t>::run_enum(n, u, sh, nsh);
 		return;
 	}
-	if((t.size() != 3 && t.size() != 4) || t[0] != "cfg") { printf("badcfg\n"); return; }
-	int every = t.size() == 4 ? atoi(t[3].c_str()) : 1;
+	if((t.size() < 3 || t.size() > 5) || t[0] != "cfg") { printf("badcfg\n"); return; }
+	std::string ty = t.size() == 5 ? t[4] : "u64";
+	int every = t.size() >= 4 ? atoi(t[3].c_str()) : 1;
 	int P = atoi(t[1].c_str());
 	if(P < 1 || P > 200000) { printf("badcfg\n"); return; }
-	run_tree(ls, P, t[2] == "hash", every);
+	if(ty == "f64") Har<double>::run_tree(ls, P, t[2] == "hash", every);
+	else if(ty == "i64") Har<int64_t>::run_tree(ls, P, t[2] == "hash", every);
+	else if(ty == "u64") Har<uint64_t>::run_tree(ls, P, t[2] == "hash", every);
+	else printf("badcfg\n");
 }
 
 int main() { return vh::run(body); }
